@@ -283,6 +283,63 @@ def inconsistencies(decl, cls):
     return out
 
 
+def _consistent_decl(cls, outputs):
+    """A graph declaration consistent with the classification `cls`."""
+    decl = {}
+    for o in outputs:
+        e = cls[compvar(o)]
+        if o in ('submit-failed', 'expired'):
+            continue
+        if e is False:
+            decl[o] = True
+        elif e is True:
+            decl[o] = False
+    if 'succeeded' not in decl and 'failed' not in decl:
+        if cls['succeeded'] is None:
+            decl['failed'] = cls['failed'] is False
+    if decl.get('succeeded') is False and cls['failed'] is False:
+        del decl['succeeded']
+        decl['failed'] = True
+    for a, b in (('succeeded', 'failed'), ('submitted', 'submit-failed')):
+        if a in decl and b in decl and (decl[a] or decl[b]):
+            # opposite outputs cannot both be declared unless both optional
+            return None
+    return decl
+
+
+def _shared_expression_check(case, cls, outputs, ctx, classes):
+    from cylc.flow.exceptions import CylcError
+    from cylc.flow.parsec.exceptions import ParsecError
+    from vf.cylcutil import load_config
+    good = _consistent_decl(cls, outputs)
+    if good is None or inconsistencies(good, cls):
+        return []
+    decoy = dict(case, decl=good)
+    try:
+        load_config(_c11.flow_text_multi([decoy, decoy]), ctx.scratch)
+    except (CylcError, ParsecError):
+        classes.append('B:shared-expression:decoy-rejected')
+        return []
+    except Exception:  # noqa
+        return []
+    classes.append('B:shared-expression-checked')
+    try:
+        load_config(_c11.flow_text_multi([decoy, case, decoy]), ctx.scratch)
+    except (CylcError, ParsecError):
+        return []
+    except Exception as exc:  # noqa
+        return [Violation('C12:config-load-raises:' + exc_sig(exc),
+                          f'{type(exc).__name__}: {exc}')]
+    return [Violation(
+        'C12:validation-accepts-inconsistent:next-to-tasks-sharing-the-'
+        'expression',
+        f'completion = {cexpr.render(case["expr"], case.get("style", 0))!r} '
+        f'with graph declaration {case["decl"]} is rejected for a task on '
+        f'its own but accepted when two other tasks with the same '
+        f'expression and the consistent declaration {good} are defined '
+        f'around it')]
+
+
 def check_config(case, ctx: Ctx) -> CaseResult:
     from cylc.flow.exceptions import CylcError
     from cylc.flow.parsec.exceptions import ParsecError
@@ -337,6 +394,12 @@ def check_config(case, ctx: Ctx) -> CaseResult:
         classes.append('B:rejected')
         if tree is not None and not incons:
             classes.append('B:reject-though-consistent')
+        if tree is not None and incons and not collided:
+            # the same expression text on several tasks: validation is per
+            # task (it depends on each task's own graph declaration), so the
+            # rejected declaration must still be rejected next to tasks
+            # whose declaration is consistent with the expression
+            viol += _shared_expression_check(case, cls, outputs, ctx, classes)
         return CaseResult(viol, nontrivial=nontrivial and tree is not None,
                           classes=classes, info=str(exc)[:200])
     except Exception as exc:  # noqa
